@@ -326,6 +326,27 @@ func main() {
 		}
 		runLine(c, dfi, ls, bigN)
 	})
+	// curved lines: many segments of lengths that are not representable, so that sums taken in different orders
+	// (total length vs running distance) differ in the last place
+	curveN := []int{2, 3, 4, 5, 7, 13, 100}
+	r.Explore("curved-families", fmt.Sprintf("3 distance functions x 3 curves (parabola (i, i^2/10), a small longitude/latitude parabola, a 0.1-step diagonal) x 2..40 vertices x N in %v x the interval set", curveN), mc.Opts{MaxDev: -1, Split: 2}, func(c *mc.Ctx) {
+		dfi := c.Choose(len(dfs))
+		f := c.Choose(3)
+		n := 2 + c.Choose(39)
+		ls := make(orb.LineString, n)
+		for i := range ls {
+			t := float64(i)
+			switch f {
+			case 0:
+				ls[i] = orb.Point{t, t * t / 10}
+			case 1:
+				ls[i] = orb.Point{-122.4 + 0.001*t, 37.7 + 0.0001*t*t}
+			case 2:
+				ls[i] = orb.Point{0.1 * t, 0.3 * t}
+			}
+		}
+		runLine(c, dfi, ls, curveN)
+	})
 	r.Sample(map[string]interface{}{"line": "[[0,0],[3,4],[3,4],[6,8]]", "N": 5, "expected": "[[0,0],[1.5,2],[3,4],[4.5,6],[6,8]]"})
 	r.Finish()
 }
